@@ -4452,6 +4452,47 @@ class _IndexGuard(object):
             rs.append(self.implies(b.c, lab == "T", b, depth))
         return _t3_any(rs) if rs else False
 
+    def use_guards(self, n, var):
+        """for every node that uses `var` while the definition at n may still be its value: the (branch, label) outcomes that every
+        path from n to that use which does not redefine `var` takes"""
+        g = self.cfg.g
+        defs = {d.id for d, _ in self.defs_of(var)}
+        uses = [u for u in self.cfg.nodes if u.id in self.IN and var in self.cfg.defs_uses(u)[1] and n.id in self.IN[u.id].get(var, ())]
+        if not uses:
+            return []
+
+        def reach(target, cut=None):
+            seen, todo = set(), [j for j in g.successors(n.id)]
+            while todo:
+                i = todo.pop()
+                if i in seen:
+                    continue
+                seen.add(i)
+                if i == target:
+                    return True
+                if i in defs:
+                    continue            # the variable is given another value here
+                for j in g.successors(i):
+                    if cut is not None and i == cut[0] and cut[1] in g[i][j]["labels"]:
+                        continue
+                    todo.append(j)
+            return False
+
+        out = []
+        for u in uses:
+            gs = []
+            for b in self.cfg.nodes:
+                if b.kind != "branch" or b.c is None:
+                    continue
+                labs = [l for j in g.successors(b.id) for l in g[b.id][j]["labels"]]
+                if sorted(labs) != ["F", "T"]:
+                    continue
+                for lab in ("T", "F"):
+                    if reach(u.id) and not reach(u.id, (b.id, lab)):
+                        gs.append((b, lab))
+            out.append(gs)
+        return out
+
     # -- the instances ------------------------------------------------------------------------------------------------------
     def instances(self):
         """[(key, node, ok, text)]"""
@@ -4530,12 +4571,22 @@ class _IndexGuard(object):
                     if cond is not None:
                         rs.append(self.implies(cond, ctruth, n))
                     ok = _t3_any(rs)
+                    extra = []
+                    if ok is not True:
+                        # the value may be a default that is replaced before it is used: what counts is what holds where this
+                        # definition is still the value of the variable (branch outcomes that every definition-clear path to
+                        # the use takes)
+                        per_use = self.use_guards(n, tgt)
+                        if per_use:
+                            ok = _t3_all([_t3_any(rs + [self.implies(b.c, lab == "T", b) for b, lab in gs]) for gs in per_use])
+                            extra = sorted({"%s is %s" % (b.text(), "true" if lab == "T" else "false") for gs in per_use for b, lab in gs})
                     guards = ["%s is %s" % (b.text(), "true" if lab == "T" else "false") for b, lab in self.view.controlling_branches(n)
                               if b is not h and b.c is not None and b.kind == "branch"]
                     if cond is not None:
                         guards.append("%s is %s" % (cfront.render(cond), "true" if ctruth else "false"))
+                    guards.extend(x for x in extra if x not in guards)
                     flagtxt = []
-                    for g, _ in self.view.controlling_branches(n):
+                    for g, _ in list(self.view.controlling_branches(n)) + [(b, l) for gs in (per_use if extra else []) for b, l in gs]:
                         gc = cfront.strip(g.c) if isinstance(g.c, dict) else {}
                         while gc.get("kind") == "UnaryOperator" and gc.get("opcode") == "!":
                             gc = cfront.strip(gc["inner"][0])
